@@ -71,7 +71,7 @@ def registry():
                 '_solve_non_UTPM_A', '_solve_non_UTPM_x', '_iouter', '_diag']
     PB_DIMS = ['_dot_pullback', '_outer_pullback', '_inv_pullback', '_solve_pullback', '_qr_rectangular_pullback', '_qr_pullback', '_qr_full_pullback', '_diag_pullback']
     reg['C03'] = dict(
-        rules=[T.rule_pb_sig, T.rule_pb_acc, T.rule_pb_out, T.rule_pb_view, T.rule_pb_ro, T.rule_pb_complete, T.rule_pb_pair, T.rule_setitem_copy, T.rule_pb_setitem_clear, T.rule_pb_rebind, T.rule_pb_dead, S.rule_const_all_coeffs, T.rule_pb_threshold, T.rule_pb_propagate, T.rule_pb_each, T.rule_pb_kernel_out, S.rule_int_index, DM.rule_dims_kernels(PB_DIMS, 'C03.dims', 120), DM.rule_dims_wrappers(['pb_dot', 'pb_outer', 'pb_solve', 'pb_inv', 'pb_qr', 'pb_qr_full', 'pb_trace', 'pb_svd', 'pb_diag'], 'C03.dims-wrap', 60), RP.rule_pb, S.rule_sym] + ([G.rule_pb_grade('C03')] if G is not None else []),
+        rules=[T.rule_pb_sig, T.rule_pb_acc, T.rule_pb_out, T.rule_pb_view, T.rule_pb_ro, T.rule_pb_complete, T.rule_pb_pair, T.rule_setitem_copy, T.rule_setitem_order, T.rule_pb_setitem_clear, T.rule_pb_rebind, T.rule_pb_dead, S.rule_const_all_coeffs, T.rule_pb_threshold, T.rule_pb_propagate, T.rule_pb_each, T.rule_pb_kernel_out, S.rule_int_index, DM.rule_dims_kernels(PB_DIMS, 'C03.dims', 120), DM.rule_dims_wrappers(['pb_dot', 'pb_outer', 'pb_solve', 'pb_inv', 'pb_qr', 'pb_qr_full', 'pb_trace', 'pb_svd', 'pb_diag'], 'C03.dims-wrap', 60), RP.rule_pb, S.rule_sym] + ([G.rule_pb_grade('C03')] if G is not None else []),
         explanation='Static decision of the tracer<->pullback calling protocol every traced program depends on. '
                     'Decides: existence/arity/keyword/permutation agreement between each recorder site and UTPM.pb_<name> '
                     '(R-pb-sig); accumulate-never-overwrite into adjoint storage (R-pb-acc, via the E1 alias/effect analysis '
@@ -84,7 +84,7 @@ def registry():
                      'receiver classes by class-hierarchy analysis on method names (no type checker available)',
                      'Function.pullback dispatch expression as extracted by tracer_proto.dispatch_shape'])
     reg['C06'] = dict(
-        rules=[T.rule_pb_ro, T.rule_sweep_init, T.rule_sweep_balance, T.rule_setitem_copy, T.rule_x_writers, T.rule_drv_fresh, T.rule_seed_copy, T.rule_global, T.rule_doc, T.rule_pb_propagate, T.rule_graph_capture] + ([A.rule_class_state, A.rule_memo_key, A.rule_rec_unwrap, A.rule_uninit] if A is not None else []) + ([G.rule_out_defined] if G is not None else []),
+        rules=[T.rule_pb_ro, T.rule_sweep_init, T.rule_sweep_balance, T.rule_setitem_copy, T.rule_setitem_order, T.rule_x_writers, T.rule_drv_fresh, T.rule_seed_copy, T.rule_global, T.rule_doc, T.rule_pb_propagate, T.rule_graph_capture] + ([A.rule_class_state, A.rule_memo_key, A.rule_rec_unwrap, A.rule_uninit] if A is not None else []) + ([G.rule_out_defined] if G is not None else []),
         explanation='Static decision of the state discipline that makes results a function of the call\'s arguments only. '
                     'Decides: pullbacks never write forward values or incoming adjoints (R-pb-ro, E1 effects); adjoints are '
                     're-initialised unconditionally for every node before every sweep and xbar_from_x ignores the previous xbar '
@@ -95,7 +95,7 @@ def registry():
                     'equality of results across concrete histories.',
         assumptions=['library summary tables of verif/effects.py', 'the structural shape of CGraph.pullback (three top-level loops)'])
     if A is not None:
-        reg['C04'] = dict(rules=[A.rule_drv_order, T.rule_drv_fresh, T.rule_setitem_copy, A.rule_drv_flow, A.rule_drv_layout, T.rule_sweep_init, T.rule_pb_propagate, RP.rule_tracer, A.rule_drv_dtype, A.rule_uninit],
+        reg['C04'] = dict(rules=[A.rule_drv_order, T.rule_drv_fresh, T.rule_setitem_copy, A.rule_drv_flow, A.rule_drv_layout, T.rule_sweep_init, T.rule_pb_propagate, RP.rule_drivers, RP.rule_truthy_drivers, A.rule_drv_dtype, A.rule_uninit_tracer, A.rule_drv_coerce],
                           explanation='Static decision of the driver protocol. Decides: on every path of each of the 8 drivers '
                                       'forward evaluation precedes the reverse sweep which precedes the read of xbar/x '
                                       '(R-drv-order); the point x and every supplied vector flow into the forward seed / '
@@ -104,7 +104,7 @@ def registry():
                                       'adjoints are re-initialised per sweep (R-sweep-init). NOT decided: the slicing '
                                       'arithmetic that picks coefficients out of xbar.',
                           assumptions=['def-use chains inside the driver bodies (no aliasing through containers)'])
-        reg['C05'] = dict(rules=[A.rule_rec_once, A.rule_rec_operands, T.rule_global, A.rule_rec_same, A.rule_rec_name, RP.rule_tracer, A.rule_rec_options, A.rule_rec_unwrap],
+        reg['C05'] = dict(rules=[A.rule_rec_once, A.rule_rec_operands, T.rule_global, A.rule_rec_same, A.rule_rec_name, RP.rule_tracer, A.rule_rec_options, A.rule_rec_unwrap, RP.rule_truthy_tracer, A.rule_replay_coerce],
                           explanation='Static decision of the recording/replay protocol. Decides: every overload of the '
                                       'differentiable API records exactly once on every returning path (R-rec-once); graph '
                                       'registration state has a closed writer set, ID == position, nothing is recorded while '
@@ -128,7 +128,7 @@ def registry():
                 '_botched_clip', '_dawsn', '_absolute', '_expm1', '_log1p', '_erf', '_erfi', '_logit', '_expit', '_gammaln', '_psi',
                 '_polygamma', '_hyperu']
         reg['C01'] = dict(
-            rules=[G.rule_grade('C01'), lambda ctx: S.rule_base(ctx, ELEM, 'C01.base'), S.rule_wrap, S.rule_wrap_order],
+            rules=[G.rule_grade('C01'), lambda ctx: S.rule_base(ctx, ELEM, 'C01.base'), S.rule_wrap, S.rule_wrap_order, RP.rule_truthy_elem, RP.rule_elem],
             explanation='Static decision of necessary structural conditions of the elementary-function kernels, for every path and symbolically '
                         'in D, P and shape: each coefficient assignment is homogeneous in the power-series grading (O3) with maximal summation '
                         'ranges (O4: no missing top/bottom term; decided by an affine index calculus, violations confirmed by a witness '
@@ -149,7 +149,7 @@ def registry():
         reg['C07'] = dict(
             rules=[G.rule_grade('C07'), S.rule_linalg_kinds, S.rule_slice_ops, S.rule_compound,
                    lambda ctx: S.rule_base(ctx, ['_inv', '_solve', '_solve_non_UTPM_x'], 'C07.base'), S.rule_wrap_order, A.rule_class_state,
-                   DM.rule_dims_kernels(FWD_DIMS, 'C07.dims', 60), DM.rule_dims_wrappers(['dot', 'outer', 'solve'], 'C07.dims-wrap', 25)],
+                   DM.rule_dims_kernels(FWD_DIMS, 'C07.dims', 60), DM.rule_dims_wrappers(['dot', 'outer', 'solve'], 'C07.dims-wrap', 25), RP.rule_linalg],
             explanation='Static decision of structural conditions of the linear-algebra kernels: dot/outer/inv/solve (all operand-kind '
                         'variants) are homogeneous (O3) with maximal ranges (O4); UTPM.dot/outer/solve select the kernel whose suffix names '
                         'the raw operand and pass .data / raw operands in kernel order (C07.kinds); det/logdet/Pade expm use only graded '
@@ -159,7 +159,7 @@ def registry():
         reg['C08'] = dict(
             rules=[G.rule_grade('C08'), lambda ctx: S.rule_base(ctx, ['_cholesky', '_qr_rectangular', '_qr_full', '_eigh1'], 'C08.base'),
                    _only(P.rule_p3, FACT, 'C08.dir-after'), _only(P.rule_p3b, FACT, 'C08.dir-carried'),
-                   _only(P.rule_paxis, FACT, 'C08.dir-const'), _only(P.rule_p4, FACT, 'C08.dir-joint'), _only(G.rule_out_defined, FACT, 'C08.out-defined'), S.rule_wrap_order, S.rule_cast_guard, A.rule_class_state, DM.rule_dims_kernels(['_qr_rectangular', '_qr', '_qr_full'], 'C08.dims', 40), DM.rule_dims_wrappers(['qr', 'qr_full'], 'C08.dims-wrap', 8)],
+                   _only(P.rule_paxis, FACT, 'C08.dir-const'), _only(P.rule_p4, FACT, 'C08.dir-joint'), _only(G.rule_out_defined, FACT, 'C08.out-defined'), S.rule_wrap_order, S.rule_cast_guard, A.rule_class_state, DM.rule_dims_kernels(['_qr_rectangular', '_qr', '_qr_full'], 'C08.dims', 40), DM.rule_dims_wrappers(['qr', 'qr_full'], 'C08.dims-wrap', 8), RP.rule_truthy_fact, RP.rule_fact],
             explanation='Static decision of structural conditions of the factorization recurrences: in _qr_rectangular, _qr_full, _cholesky, '
                         '_eigh1, lu, lu2, lu_factor every residual (dF, dG, H, S, K) and every factor coefficient is homogeneous of the order '
                         'being defined (O3) and the residual sums are maximal (O4); base points come from numpy.linalg.qr / scipy.linalg.qr / '
@@ -177,7 +177,7 @@ def registry():
             assumptions=['affine index domain with Fourier-Motzkin style bound elimination; violations are reported only with a concrete witness valuation'])
     if S is not None and G is not None:
         reg['C10'] = dict(
-            rules=[S.rule_cmp, S.rule_shape, lambda ctx: S.rule_base(ctx, None, 'C10.base'), S.rule_dispatch, S.rule_linalg_kinds, S.rule_kinds, S.rule_kernel_dtype, S.rule_shape_arg, S.rule_transpose_axes, S.rule_wrap_order, S.rule_select_zeroth, S.rule_lib_api, RP.rule_api],
+            rules=[S.rule_cmp, S.rule_shape, lambda ctx: S.rule_base(ctx, None, 'C10.base'), S.rule_dispatch, S.rule_linalg_kinds, S.rule_kinds, S.rule_kernel_dtype, S.rule_shape_arg, S.rule_transpose_axes, S.rule_wrap_order, S.rule_select_zeroth, S.rule_lib_api, RP.rule_api, RP.rule_truthy_api],
             explanation='Static decision of the NumPy-agreement clauses that are visible in the shape of the code: comparison methods return '
                         'numpy.all(<own operator>(zeroth coefficients)) (C10.cmp); shape/size/ndim/len read one coefficient slice '
                         '(C10.shape); every kernel computes its zeroth coefficient with the NumPy/SciPy function it is named after '
